@@ -47,7 +47,7 @@ CHECKS["C05"] = ("§5 C05", "Snapshots of 9 graph templates collected by the rea
     "max_collection_size, max_var_depth unbounded; the solver partitions them against the graph; max_string_length 0..8): budget, string cut + truncated flag, per-collection "
     "cap, depth cap, truthful content, breadth-first spending of the budget (level order against an independent BFS of the real objects), locals never crowded out, everything "
     "within limits collected; two declaration orders (four thorough).")
-CHECKS["C06"] = ("§5 C06", "39 kinds of awkward values (no __dict__, non-str keys, iterators/generators, dunder methods raising any of 6 exception classes incl. "
+CHECKS["C06"] = ("§5 C06", "42 kinds of awkward values (no __dict__, non-str keys, iterators/generators, dunder methods raising any of 6 exception classes incl. "
     "BaseException subclasses, invalid UTF-8 text) at 6 positions (local, local named self, list element, dict value, attribute, watch-only), 1-3 snapshot tracepoints on the line, through the "
     "real handler/collector and the real protobuf conversion: one converting snapshot per tracepoint, every other variable intact (independent reader), the value has an entry "
     "with its real type name, tables closed with no foreign entries, no two snapshots of one event share a table; a tracepoint failing for a reason of its own (7 kinds) does not cost its siblings on the line their snapshots. Selector space enumerated by the solver.")
